@@ -716,6 +716,38 @@ fn rejection(ctx: &Ctx, root: &Path, rng: &mut Rng, cli: Option<&str>) {
             ctx.inconclusive(json!({"harness": "a duplicate-member text was accepted by the parser (C11's business)", "text": dup}));
         }
     }
+    // character-level near misses: a valid text with ONE character added at its very beginning, its
+    // very end or at a layout position, drawn from what *some* notion of white space or of "ignorable"
+    // contains (Rust's char::is_whitespace, Unicode format characters, NUL) - a front end that
+    // tidies its input (trim, BOM stripping, line-end normalisation) before parsing accepts what the
+    // parser rejects (seeded C09-r10: `trim_start()` drops a leading VT / FF / NEL). The parser
+    // itself decides which of them are rejected; only those are kept.
+    {
+        let pool = ['\u{b}', '\u{c}', '\u{85}', '\u{a0}', '\u{1680}', '\u{2003}', '\u{2028}', '\u{2029}', '\u{202f}', '\u{205f}', '\u{3000}', '\u{feff}', '\u{180e}', '\u{200b}', '\u{0}', '\u{1a}', '\u{7f}'];
+        let mut at = 4usize.min(rejected.len());
+        let mut kept = 0;
+        for (pi, c) in pool.iter().enumerate() {
+            let idl = gen_idl(rng, &GenCfg { max_depth: 1, max_members: 3, max_fields: 2, keyword_fields: false, keyword_names: false, raw_forbidden: false, typerefs: false, comments: pi % 2 == 0, finite: true });
+            let base = crate::idl::render(&idl, rng, 0);
+            if varlink_parser::IDL::try_from(base.as_str()).is_err() {
+                continue;
+            }
+            let mut cands: Vec<String> = vec![format!("{}{}", c, base), format!("{}{}", base, c), format!("{}\n{}", c, base), format!("{}{}\n", base, c)];
+            if let Some(i) = base.find('\n') {
+                let mut t = base.clone();
+                t.insert(i, *c);
+                cands.push(t);
+            }
+            for t in cands {
+                if varlink_parser::IDL::try_from(t.as_str()).is_err() {
+                    rejected.insert(at.min(rejected.len()), t);
+                    at += 1;
+                    kept += 1;
+                }
+            }
+        }
+        ctx.count("rejected_texts_one_added_character", kept);
+    }
     for (k, text) in rejected.iter().enumerate() {
         ctx.case(Some(hash_of(&("rejected", text))));
         ctx.count("rejected_texts", 1);
@@ -725,7 +757,7 @@ fn rejection(ctx: &Ctx, root: &Path, rng: &mut Rng, cli: Option<&str>) {
             Emit::Ok(_) => ctx.violation("c09:rejected-input-generates-code", json!({"engine": "c09", "text": text, "message": "generate() succeeded for a text the parser rejects"})),
             Emit::Panic(p) => ctx.violation("c09:rejected-input-panics", json!({"engine": "c09", "text": text, "message": p})),
         }
-        if let (Some(cli), true) = (cli, k < ctx.tier.pick(40, 400)) {
+        if let (Some(cli), true) = (cli, k < ctx.tier.pick(100, 600)) {
             let p = root.join(format!("r{}.varlink", k));
             std::fs::write(&p, text).unwrap();
             if let Ok(o) = Command::new(cli).arg(&p).output() {
@@ -744,7 +776,7 @@ fn rejection(ctx: &Ctx, root: &Path, rng: &mut Rng, cli: Option<&str>) {
     let dir = root.join("macrej");
     let mut files: Vec<(String, String)> = Vec::new();
     let mut lib = String::from("#![allow(warnings)]\n");
-    let sample: Vec<&String> = rejected.iter().filter(|t| !t.contains("\"#")).take(ctx.tier.pick(8, 30)).collect();
+    let sample: Vec<&String> = rejected.iter().filter(|t| !t.contains("\"#") && !t.contains('\u{0}')).take(ctx.tier.pick(20, 60)).collect();
     for (k, t) in sample.iter().enumerate() {
         files.push((format!("src/rj{}.rs", k), format!("varlink_derive::varlink!(inner, r#\"{}\"#);\n", t)));
         lib.push_str(&format!("pub mod rj{};\n", k));
